@@ -84,6 +84,12 @@ func (se snappyEncoding) Unmarshal(buf []byte, msg drpc.Message) (err error) {
 	if err != nil {
 		return
 	}
+	// The length header is the sender's claim. The densest snappy element (a copy) yields 64
+	// bytes from 3, so a block cannot decode to more than ~21x its size: a larger claim is
+	// corrupt and must not be used to size the buffer (up to 4 GiB for a few bytes of input).
+	if decodedLen > 32*len(buf) {
+		return snappy.ErrCorrupt
+	}
 
 	var unmarshalBuf *snappyBuf
 	mBufPool := snappyBytesPool.Get()
